@@ -224,7 +224,11 @@ impl TransportFn<()> for Run {
             if returned > written {
                 violation("console-stream", "receiveq", format!("caller consumed {returned} bytes, device wrote only {written}"));
             }
-            if txs != tx_expect && !violated() {
+            // "every send places exactly the caller's bytes on the transmit queue": the byte
+            // stream is what counts; how many requests carry one send is the driver's business
+            // (an empty send may produce an empty request or none)
+            let flat = |v: &Vec<Vec<u8>>| v.iter().flatten().copied().collect::<Vec<u8>>();
+            if txs != tx_expect && flat(&txs) != flat(&tx_expect) && !violated() {
                 violation("console-tx", "transmitq", format!("transmit queue saw {} transmissions, caller sent {}; last seen {:x?}", txs.len(), tx_expect.len(), txs.last().map(|v| &v[..v.len().min(8)])));
             }
             op_point();
